@@ -27,7 +27,7 @@ impl Normalization {
     }
 
     pub(crate) fn enum_name(self, enm: &str) -> Cow<'_, str> {
-        self.camel_case(enm)
+        self.field_type_impl(enm)
     }
 
     fn field_type_impl(self, fty: &str) -> Cow<'_, str> {
@@ -43,11 +43,11 @@ impl Normalization {
     }
 
     pub(crate) fn input_name(self, inm: &str) -> Cow<'_, str> {
-        self.camel_case(inm)
+        self.field_type_impl(inm)
     }
 
     pub(crate) fn scalar_name(self, snm: &str) -> Cow<'_, str> {
-        self.camel_case(snm)
+        self.field_type_impl(snm)
     }
 }
 
